@@ -309,13 +309,40 @@ def unit_vector(unit):
             s0 = schema_of(v)
             fp0 = v.fingerprint()           # cached before the write
             before = obs(v)
+            key_obj, val_obj = real_key(kdesc), real_value(vd)
+            key_img, val_img = _arg_image(key_obj), _arg_image(val_obj)
             try:
-                v[real_key(kdesc)] = real_value(vd)
+                v[key_obj] = val_obj
                 raised = None
             except Exception as e:
                 raised = e
             agg.compared += 1
             site = f"setitem.{kdesc[0]}.{vd[0] if vd[0] != 'fault' else 'fault-' + vd[1]}"
+            # Python's list assignment never touches the key or the value it is given
+            if _arg_image(key_obj) != key_img or _arg_image(val_obj) != val_img:
+                agg.violation(V(site, "assignment-changed-its-" + ("key" if _arg_image(key_obj) != key_img else "value") + "-argument",
+                                dict(case, raised=type(raised).__name__ if raised else None), repr(key_img)[:120], repr(_arg_image(key_obj))[:120]))
+                continue
+            # ... so the SAME key object addresses the same relative positions of a longer vector afterwards
+            if raised is None and kdesc[0] in ("idx-list", "idx-vector", "idx-tuple") and n and len(same) > 1 and kname != "object":
+                agg.evals += 1; agg.transitions += 1; agg.compared += 1
+                longer = list(base) + [same[0]]
+                pos2 = resolve_key(kdesc, n + 1)
+                try:
+                    v2 = Vector(list(longer))
+                    v2[key_obj] = same[-1]
+                    got2 = list(v2._underlying)
+                except Exception as e2:
+                    got2 = e2
+                if isinstance(pos2, list):
+                    want2 = list(longer)
+                    for p_ in pos2:
+                        want2[p_] = same[-1]
+                    if isinstance(got2, Exception) or not all((g is None) == (w is None) and (g is None or g == w) for g, w in zip(got2, want2)):
+                        agg.violation(V(site, "reused-key-addresses-other-positions", dict(case, second_vector=longer, second_value=same[-1]), want2,
+                                        repr(got2)[:80] if isinstance(got2, Exception) else got2))
+                        continue
+                    agg.outcomes["key-reuse-ok"] += 1
             py = (f"from serif import Vector\nfrom datetime import date, datetime\nv = Vector({base!r}, name='nm')\n"
                   f"try:\n    v[{_keysrc(kdesc)}] = {_valsrc(vd)}\nexcept Exception as e: print('raised', type(e).__name__)\n"
                   f"print(list(v), v.schema())")
@@ -397,6 +424,17 @@ def unit_vector(unit):
     return agg
 
 
+def _arg_image(x):
+    """type-exact image of a key / value argument (None for one-shot or faulty arguments that cannot be looked at twice)"""
+    if isinstance(x, (list, tuple)):
+        return (type(x).__name__, tuple(canon_elem(e) for e in x))
+    if hasattr(x, "_underlying") and hasattr(x, "_dtype"):
+        return obs(x)
+    if isinstance(x, (slice, int, float, str, bytes, bool, complex)) or x is None:
+        return repr(x)
+    return None
+
+
 def _keysrc(kdesc):
     k, p = kdesc
     if k == "int":
@@ -428,6 +466,10 @@ def unit_table(unit):
         [("a", [1, 2]), ("b", ["x", "y"]), ("c", [0.5, 1.5])],
         [("a", [1, 2]), ("b", [3, 4])],
         [("a", [True, False]), ("b", [D1, D2])],
+        # all-int tables that are NOT square, so that a region and its source table have different row and column counts
+        [("a", [1, 2, 3]), ("b", [4, 5, 6])],
+        [("a", [1, 2]), ("b", [3, 4]), ("c", [5, 6])],
+        [("a", [1]), ("b", [2])],
     ]
     vals = [7, 7.5, "z", None, True, D3]
 
@@ -621,11 +663,15 @@ def unit_table(unit):
                     vforms.append(("table", [[300 + 10 * j + i for i in range(len(rows))] for j in range(len(cols))]))
                     if len(cols) >= 2:
                         vforms.append(("list-of-columns", [[400 + 10 * j + i for i in range(len(rows))] for j in range(len(cols))]))
+                    # a source table of the wrong width (one column more / fewer; also: as many ROWS as the target has columns)
+                    vforms.append(("table-too-wide", [[500 + 10 * j + i for i in range(len(rows))] for j in range(len(cols) + 1)]))
+                    if len(cols) >= 2:
+                        vforms.append(("table-too-narrow", [[600 + 10 * j + i for i in range(len(rows))] for j in range(len(cols) - 1)]))
                 for vk, vv in vforms:
                     t = mk(cs)
                     agg.evals += 1; agg.transitions += 1; agg.states += 1
                     case = dict(d, op="2d", rowspec=[rk, list(rv) if isinstance(rv, tuple) else rv], colspec=[ck, list(cv) if isinstance(cv, tuple) else cv], value=[vk, vv])
-                    if vk == "table":
+                    if vk.startswith("table"):
                         value = Table([Vector(list(c), name=f"s{j}") for j, c in enumerate(vv)])
                     else:
                         value = vv
@@ -648,7 +694,7 @@ def unit_table(unit):
                         elif vk == "row-list":
                             for j, c in enumerate(cols):
                                 ups.setdefault(c, []).append((rows[0], vv[j]))
-                        elif vk == "row-list-wrong-length":
+                        elif vk in ("row-list-wrong-length", "table-too-wide", "table-too-narrow"):
                             invalid = True
                         elif vk == "column-list":
                             ups[cols[0]] = list(zip(rows, vv))
@@ -657,7 +703,7 @@ def unit_table(unit):
                                 ups.setdefault(c, []).extend(zip(rows, vv[j]))
                     if invalid:
                         agg.compared += 1
-                        if raised is None and not (cols == [] or (rows == [] and not vk.endswith("wrong-length"))):
+                        if raised is None and not (cols == [] or (rows == [] and not vk.endswith("wrong-length") and not vk.startswith("table-too"))):
                             got = [list(c._underlying) for c in t._underlying]
                             if got != [list(v) for _, v in cs]:
                                 agg.violation(V("table.setitem.2d", "invalid-key-or-shape-accepted-and-table-changed", case, "error", got))
